@@ -26,7 +26,7 @@ Faults == {"params_equal_ignores_hash", "key_equal_ignores_variant", "key_equal_
            "crunchy_prefix_01", "legacy_prefix_01", "prefix_little_endian", "pubkey_other_encoding", "pubkey_drops_id",
            "id_zero_wildcard", "idreq_always_required", "hasidreq_ignores_prehash_variant", "equal_across_types",
            "equal_one_directional", "unstable_accessor", "accessor_returns_internal_slice", "accepts_nonzero_id", "parameters_not_kept", "kid_not_base64_of_id",
-           "private_equal_public_only"}
+           "private_equal_public_only", "unused_id_shows_in_accessor"}
 ASSUME Fault \in Faults \cup {"none"}
 
 \* ------------------------------------------------------------------ the key space
@@ -126,7 +126,8 @@ ImplObs(a) ==
    aliased |-> IF F("accessor_returns_internal_slice") /\ a.kt = "Ecdsa" /\ a.kind = "public" THEN <<"PublicPoint">> ELSE <<>>,
    pbuilt |-> ~(F("parameters_not_kept") /\ a.kt = "HmacPrf"), pbuiltR |-> ~(F("parameters_not_kept") /\ a.kt = "HmacPrf"),
    pfresh |-> TRUE, pfreshR |-> TRUE, pself |-> ImplPEq(a, a), self |-> ImplEq(a, a),
-   value |-> <<a.kt, a.kind, a.p, a.mat, ImplIdReq(a), ImplPrefix(a), ImplKid(a)>>,
+   \* (fault: an accessor shows the id given to the constructor although the key has no id requirement and Equal ignores it)
+   value |-> <<a.kt, a.kind, a.p, a.mat, ImplIdReq(a), ImplPrefix(a), ImplKid(a), IF F("unused_id_shows_in_accessor") THEN a.id ELSE NoId>>,
    secret |-> ImplSecret(a),
    pub |-> IF a.kind # "private"
            THEN [has |-> FALSE, err |-> FALSE, stable |-> TRUE, peq |-> TRUE, peqR |-> TRUE, id |-> NoId, req |-> FALSE,
@@ -213,6 +214,7 @@ ExpectedLaw ==
                                       "doc: a key without id requirement reports a non-zero id (the constructor accepts one; IDRequirement: if not required, the returned ID is zero)"}
       [] f = "parameters_not_kept" -> {"doc: key.Parameters() is not Equal to the parameters the key was built with"}
       [] f = "kid_not_base64_of_id" -> {"doc: KID() is not the documented function of (kid strategy, id, custom kid)"}
+      [] f = "unused_id_shows_in_accessor" -> {"doc: Equal keys whose accessors report different values"}
       [] f = "private_equal_public_only" -> {"doc: private keys are Equal iff their public keys are Equal and their secret parts are equal"}]
 ExpectedOnly == bad = <<>> \/ Fault = "none" \/ bad[1] \in ExpectedLaw[Fault]
 ================================================================================
